@@ -21,15 +21,15 @@ import (
 type c20 struct{}
 
 type c20Case struct {
-	N       int     `json:"n"`
-	Errs    []bool  `json:"error_pattern"`
-	Mode    string  `json:"mode"` // jitter | gated | directed
-	Order   []int   `json:"completion_order,omitempty"`
-	Wait    string  `json:"wait_point,omitempty"`
-	Until   string  `json:"until_point,omitempty"`
-	Reps    int     `json:"repetitions"`
-	Jitter  uint64  `json:"jitter_seed"`
-	SlowRed bool    `json:"slow_reduce"`
+	N       int    `json:"n"`
+	Errs    []bool `json:"error_pattern"`
+	Mode    string `json:"mode"` // jitter | gated | directed
+	Order   []int  `json:"completion_order,omitempty"`
+	Wait    string `json:"wait_point,omitempty"`
+	Until   string `json:"until_point,omitempty"`
+	Reps    int    `json:"repetitions"`
+	Jitter  uint64 `json:"jitter_seed"`
+	SlowRed bool   `json:"slow_reduce"`
 }
 
 func (c20) ID() string            { return "C20" }
